@@ -54,3 +54,4 @@ Example C04_nonvacuous :
   /\ leaf_parse_gen (TList (TEnum ["RED"])) ["RED"; "PURPLE"] = Err (Exit 2)
   /\ leaf_parse_gen TInt ["1.5"] = Err (Exit 2).
 Proof. vm_compute. repeat split; reflexivity. Qed.
+Print Assumptions C04_nonvacuous.
